@@ -433,7 +433,7 @@ class Optic:
             rays.update_intensity(self.polarization_state)
 
         # update ray intensity
-        self.surface_group.intensity[-1, :] = rays.i
+        self.image_surface.intensity = np.copy(np.atleast_1d(rays.i))
 
         return rays
 
@@ -466,7 +466,7 @@ class Optic:
         rays = self.surface_group.trace(rays)
 
         # update intensity
-        self.surface_group.intensity[-1, :] = rays.i
+        self.image_surface.intensity = np.copy(np.atleast_1d(rays.i))
 
         return rays
 
